@@ -142,14 +142,12 @@ example : ∃ s, runLabels i5 goodTrace = some s ∧ s.src = none ∧ s.dst = no
 FULL STATEMENT (false for the code as it is — `C03_register_full_false_pull_delete`,
 `C03_register_full_false_commit_race`):
 
-    theorem C03_register (v0 : Option Val) (a : Bool) {s s' : Sys} {l : Label}
-        (h : Reach (Sys.init v0 a) s) (hs : step? s l = some s') : RegisterStep s l s'
-    theorem C03_end_state (v0 a) {s} (h : Reach (Sys.init v0 a) s) (hq : Quiescent s) :
-        s.src = none ∧ s.dst = logical s
+    C03_register  : ∀ v0 a s s' l, Reach (Sys.init v0 a) s → step? s l = some s' → RegisterStep s l s'
+    C03_end_state : ∀ v0 a s, Reach (Sys.init v0 a) s → Quiescent s → s.src = none ∧ s.dst = logical s
 
 What is proved below is the same with `Reach` replaced by `ReachG` (every step satisfies
 `GoodStep`): (1) no client command with `deletes ∧ ¬ blocking` is invoked, (2) `commit D` happens
-only in states with `crit = none`.
+only in states where the key-lock holder owns no DUMP (`critDump s = none`).
 -/
 
 /-- the invariant holds in every state reachable by good steps -/
